@@ -78,10 +78,15 @@ COMMON_TRUSTED = [
     "modelled by their specification inside the concrete model, not verified here (properties C04/C07/C08 of other "
     "groups): the striped layout made by Stripe::stripe + configure_wrap (cell (r,c) = symbol c*R+r, wildcard past L), "
     "the AVX2 u8 kernel (= saturating sum of discrete cells), Maximum<u8>::max (largest cell), "
-    "Threshold<u8>::threshold (cells >= t, row-major); exercised by the replay on every run under all three arms",
+    "Threshold<u8>::threshold (cells >= t, row-major); exercised by the replay on every run under all three arms; "
+    "coq/e2e proves these specifications equal to the kernel models of the owning groups (e2e_kernels_agree_with_specs, an "
+    "obligation of the thorough tier)",
     "not modelled: usize overflow of row + block_size (unreachable: only evaluated when row < R and row is 0 or >= B), "
     "the unused f32 `scores` buffer of the Scanner, Scanner::scores(); block_size = 0 (never returns; outside the "
     "property, rejected by the Python binding)",
+    "translator translate/scan_skel.py (regex/template reader of scan.rs; a body that does not match the template is a "
+    "broken obligation; `python3 translate/scan_skel_selftest.py` checks 9 harmless rewrites and 24 mutations); that "
+    "`Scanner::threshold` / `Scanner::block_size` only overwrite their field (ScanSwitch.v) is tied by replay only",
 ]
 
 def _e2e_obligations():
@@ -123,7 +128,7 @@ SPEC = dict(
          "position i and s >= thr), on the implementation's own scores; take(k) = min(k,#qualifying) distinct "
          "qualifying hits; any panic on a configured input. DIFF: bit-exact comparison with the extracted binary32 "
          "scanner model incl. yield order and panic sites. Non-trivial: distinct (M, L, B, wrap, thr, matrix) with "
-         "L >= M and wrap >= M-1. Theorems (15): C02_scan_sound, C02_take_sound (unconditional), C02_scan_complete, "
+         "L >= M and wrap >= M-1. Theorems (C02.v, 17): C02_scan_sound, C02_take_sound (unconditional), C02_scan_complete, "
          "C02_next_total, C02_take_prefix (all B >= 1, all R/Lm incl. L<M, L=0, R multiple of B, any threshold; under "
          "the layout hypotheses and C08 conservativeness at the threshold), C02_scan_blocks_partition, C02_scan_reads_blocks_only (next() scores no row range other than "
          "the blocks), C02_check_sound, "
@@ -135,9 +140,23 @@ SPEC = dict(
          "hypothesis left: for matrices with finite non-wildcard cells that satisfy coq/disc's executable conditioning "
          "predicate - evaluated by the driver as wc_input on every lost hit - the concrete binary32 scanner yields exactly "
          "the qualifying positions; through DiscBridge.v: the two models of to_discrete / scale / the window scores agree), "
-         "C02_concrete_sound. The corpus (run first) holds boundary cases, the inputs on which seven deliberate "
+         "C02_concrete_sound; C02_setters_between_calls_sound / C02_concrete_setters_between_calls_sound (after k calls of next() "
+         "under (thr, B), lowering or keeping the threshold and ANY new block size: the first k hits meet thr, all hits are valid "
+         "positions with exact scores meeting the new threshold, no position twice; soundness only). "
+         "Translator translate/scan_skel.py re-reads scan.rs on every run into coq/scan/GenScan.v (22-field statement skeleton of "
+         "Iterator::next / the Iterator::max override + the field initialisers of Scanner::new); C02Source.v (8 theorems: "
+         "C02_source_skeleton, C02_source_defaults, C02_source_model_eq, C02_source_concrete_eq, C02_source_scan_sound, "
+         "C02_source_scan_complete, C02_source_concrete_scan_wc_checked, C02_source_fields_matter) restates the property for the "
+         "scanner parameterised by that skeleton (ScanShape.v) and shows on a toy instance that 13 single-field deviations of next() "
+         "violate it; the extracted skeleton scanner is replayed against the implementation under one arm per case; `B=d` / `thr=d` "
+         "use the defaults read from Scanner::new. Generator (round 3): sequences configured for a longer motif first (wrap > M-1 in "
+         "14 % of the cases, up to 40 extra rows), 1/8 of the cases with a partial last block and spare wrap rows for a full one, "
+         "block sizes 4,5,6,9,12,32,33,40 in addition, per-row N cells above the best base, thresholds 1..3 floats around attained "
+         "scores, wide motifs (M 100..299 quick, ..2000 thorough), setters called between calls of next() (`sw=`: DIFF against "
+         "ScanSwitch.v + a weak judge in the driver; the theorem covers soundness for a lowered threshold only). The corpus (run first) holds boundary cases, the inputs on which seven deliberate "
          "mutations of scan.rs and the seeded changes were caught, the witnesses of the repaired defect F14b (must pass) and "
-         "the witness of the known finding F14-c02.",
+         "the witness of the known finding F14-c02; corpus/C02/round3.txt (13 cases: spare wrap rows, 30+ extra wrap rows, N above the "
+         "best base, one wide motif, setters between calls) and round3_mutation_witnesses.txt.",
     trusted_base=COMMON_TRUSTED,
     assumptions=[
         "conservative (property C08) at the scanner's threshold: a valid position whose f32 score is >= thr has an "
